@@ -737,7 +737,7 @@ def search(ctx):
 
     # d. feeders: every split of lengths 1..L into <= 4 chunks (L = 40 in thorough), all modes, both directions
     # exhaustive up to L; lengths L+1..40 get sampled splits below
-    L = 18 if (ctx.quick() and not hard) else 26 if ctx.quick() else 32
+    L = 18 if (ctx.quick() and not hard) else 26 if ctx.quick() else 28
     combos = []
     for mode in MODES:
         m = mode[0] if isinstance(mode, tuple) else mode
